@@ -33,6 +33,21 @@ class SimResult(object):
 SHRINKING = [False]   # simulate() may consult this to skip expensive side-exploration while shrinking
 
 
+def cold_reset(simulate):
+    """In-process restart of the system under test between two simulated runs: forget every cdd module (module-level
+    caches, mutable defaults, registries die with them) and tell the check to warm up again."""
+    from . import proc
+    proc.purge(("cdd",))
+    w = getattr(simulate, "__globals__", {}).get("_warm")
+    if isinstance(w, list) and w:
+        w[0] = False
+    wrapped = getattr(simulate, "__wrapped_globals__", None)
+    if wrapped is not None:
+        w = wrapped.get("_warm")
+        if isinstance(w, list) and w:
+            w[0] = False
+
+
 def explore(strategy, simulate, seed, n_examples, known, batch=40, deadline_s=None, max_classes=4,
             max_shrink_runs=120, max_shrink_s=30.0):
     """Returns {"stats","violations","digests","plan_digests","nontrivial","samples"}."""
@@ -40,6 +55,8 @@ def explore(strategy, simulate, seed, n_examples, known, batch=40, deadline_s=No
            "plan_digests": [], "nontrivial": [], "samples": []}
     ignore = set()
     final_seen = set()
+    prev_holder = [None]
+    recent, recent_all = [], []
     t0 = time.time()
     done = 0
     b = 0
@@ -49,7 +66,8 @@ def explore(strategy, simulate, seed, n_examples, known, batch=40, deadline_s=No
             break
         b += 1
         n = min(batch, n_examples - done)
-        state = {"target": None, "last": None, "n": 0, "shrinks": 0, "t_shrink": None, "best": None}
+        state = {"target": None, "last": None, "n": 0, "shrinks": 0, "t_shrink": None, "best": None,
+                 "prev_plan": prev_holder[0], "warm": None}
 
         def test(plan):
             if state["target"] is not None:
@@ -64,10 +82,26 @@ def explore(strategy, simulate, seed, n_examples, known, batch=40, deadline_s=No
                     return
             SHRINKING[0] = state["target"] is not None
             try:
+                if state["target"] is not None and state.get("mode") in ("cold", "warm"):
+                    # shrink under exactly the conditions the replay file will have: a cold system, then (warm mode) the
+                    # recorded preceding history, then the candidate
+                    cold_reset(simulate)
+                    if state["mode"] == "warm":
+                        for prev in state["prefix"]:
+                            try:
+                                simulate(prev)
+                            except BaseException:
+                                pass
                 res = simulate(plan)
             finally:
                 SHRINKING[0] = False
             if state["target"] is None:
+                state["warm"] = state["prev_plan"]      # what ran in this process just before this plan
+                state["prev_plan"] = plan
+                prev_holder[0] = plan
+                recent[:] = (recent_all + [])[-3:]      # the up-to-3 plans that ran before this one
+                recent_all.append(plan)
+                del recent_all[:-4]
                 state["n"] += 1
                 out["stats"]["runs"] += 1
                 merge_stats(out["stats"], res.stats)
@@ -101,7 +135,35 @@ def explore(strategy, simulate, seed, n_examples, known, batch=40, deadline_s=No
             if not unknown:
                 return
             if state["target"] is None:
-                state["target"] = class_key(unknown[0])
+                key0 = class_key(unknown[0])
+                # does it reproduce from a cold system?  If not: after the preceding 1..3 histories?  (state leaking
+                # between runs inside one process: caches, mutable defaults)
+                mode, prefix = "deep", []
+                try:
+                    SHRINKING[0] = True
+                    cold_reset(simulate)
+                    if any(class_key(x) == key0 for x in simulate(plan).violations):
+                        mode = "cold"
+                    else:
+                        for k_ in (1, 2, 3):
+                            cand = [p_ for p_ in recent[-k_:]]
+                            if len(cand) < k_:
+                                break
+                            cold_reset(simulate)
+                            for prev in cand:
+                                try:
+                                    simulate(prev)
+                                except BaseException:
+                                    pass
+                            if any(class_key(x) == key0 for x in simulate(plan).violations):
+                                mode, prefix = "warm", cand
+                                break
+                finally:
+                    SHRINKING[0] = False
+                state["mode"], state["prefix"] = mode, prefix
+                out["stats"]["discovery_" + mode] = out["stats"].get("discovery_" + mode, 0) + 1
+                state["target"] = key0
+                state["warm_at_discovery"] = prefix if mode == "warm" else None
                 pick = unknown[0]
             else:
                 same = [v for v in unknown if class_key(v) == state["target"]]
@@ -126,6 +188,10 @@ def explore(strategy, simulate, seed, n_examples, known, batch=40, deadline_s=No
             v = state["last"]
             v["trace"] = dict(v["trace"] or {})
             v["trace"]["seed"] = seed
+            if state.get("warm_at_discovery"):
+                # the histories that ran in this process immediately before the violation was first seen, established
+                # at discovery as sufficient from a cold start; the plan was shrunk under exactly that prefix
+                v["trace"]["warm_prefix"] = list(state["warm_at_discovery"])
             out["violations"].append(v)
             ignore.add(state["target"])
         except (herrors.Flaky, herrors.FlakyFailure) as e:  # the simulated run was not deterministic
